@@ -2346,7 +2346,7 @@ func TestVerifC20(t *testing.T) {
 	}
 
 	const steps = 40
-	total := vc.N(256, 16000)
+	total := vc.N(256, 14000)
 	if vc.Only < 0 && vc.Shard == 0 {
 		verifC20ProbeV2(t, vc)
 	}
